@@ -8,6 +8,8 @@ import Mathlib.Tactic.Positivity
 import Mathlib.Tactic.NormNum
 import Mathlib.Algebra.Order.BigOperators.Group.List
 import Mathlib.Analysis.SpecialFunctions.Trigonometric.Basic
+import Mathlib.Analysis.SpecialFunctions.Trigonometric.Inverse
+import Mathlib.Algebra.Order.Floor.Semiring
 /-! Helper lemmas for C14: quaternion algebra in the scalar-last layout, `listMin`, sums. -/
 namespace ModelR
 open Real
@@ -255,6 +257,100 @@ theorem mem_rotPart_axisRotations_of (m : List ℕ) (d : ℕ) (ax : Fin 3) (i : 
   · right; right; exact ⟨i, hi, rfl⟩
   · right; left; exact ⟨i, hi, rfl⟩
   · left; exact ⟨i, hi, rfl⟩
+
+
+/-! ### histogram bins -/
+
+theorem clip1_mem (x : ℝ) : -1 ≤ clip1 x ∧ clip1 x ≤ 1 := by
+  unfold clip1; split_ifs <;> constructor <;> linarith
+
+theorem natSum_eq (l : List ℕ) : natSum l = l.sum := by
+  unfold natSum
+  have : ∀ a, l.foldl (· + ·) a = a + l.sum := by
+    induction l with
+    | nil => simp
+    | cons x xs ih => intro a; simp [List.foldl, ih, Nat.add_assoc]
+  simpa using this 0
+
+theorem inBin_iff (n b : ℕ) (x : ℝ) :
+    inBin n b x = true ↔
+      (if b + 1 = n then (b : ℝ) ≤ x ∧ x ≤ (n : ℝ) else (b : ℝ) ≤ x ∧ x < ((b + 1 : ℕ) : ℝ)) := by
+  have d : ∀ (p : Prop) [inst : Decidable p], (@decide p inst = true) ↔ p :=
+    fun p _ => decide_eq_true_iff
+  unfold inBin
+  split_ifs <;> simp only [RofNat, Bool.and_eq_true] <;> exact and_congr (d _) (d _)
+
+/-- a value of `[0, n]` lies in exactly one of the `n` unit bins (the last one closed) -/
+theorem inBin_unique (n : ℕ) (hn : 0 < n) (x : ℝ) (h0 : 0 ≤ x) (hx : x ≤ n) :
+    ∃ k < n, ∀ b < n, (inBin n b x = true ↔ b = k) := by
+  by_cases hlast : x < n
+  · refine ⟨⌊x⌋₊, (Nat.floor_lt h0).mpr hlast, ?_⟩
+    intro b hb
+    have hfl := Nat.floor_le h0
+    have hlt := Nat.lt_floor_add_one x
+    rw [inBin_iff]
+    split_ifs with hbl
+    · constructor
+      · rintro ⟨h1, _⟩
+        have h2 : b ≤ ⌊x⌋₊ := Nat.le_floor h1
+        have h3 : ⌊x⌋₊ < n := (Nat.floor_lt h0).mpr hlast
+        omega
+      · rintro rfl; exact ⟨hfl, hx⟩
+    · constructor
+      · rintro ⟨h1, h2⟩
+        have h3 : b ≤ ⌊x⌋₊ := Nat.le_floor h1
+        have h4 : ⌊x⌋₊ < b + 1 := by
+          rw [Nat.floor_lt h0]; exact_mod_cast h2
+        omega
+      · rintro rfl
+        refine ⟨hfl, ?_⟩
+        exact_mod_cast hlt
+  · have hxn : x = n := le_antisymm hx (not_lt.mp hlast)
+    refine ⟨n - 1, by omega, ?_⟩
+    intro b hb
+    rw [inBin_iff]
+    split_ifs with hbl
+    · constructor
+      · intro _; omega
+      · intro _
+        refine ⟨?_, hx⟩
+        rw [hxn]; exact_mod_cast (by omega : b ≤ n)
+    · constructor
+      · rintro ⟨_, h2⟩
+        exfalso
+        rw [hxn] at h2
+        have : n < b + 1 := by exact_mod_cast h2
+        omega
+      · intro h; omega
+
+theorem countP_range_eq_one (n : ℕ) (p : ℕ → Bool) (k : ℕ) (hk : k < n)
+    (h : ∀ b < n, (p b = true ↔ b = k)) : (List.range n).countP p = 1 := by
+  have gen : ∀ m ≤ n, (List.range m).countP p = if k < m then 1 else 0 := by
+    intro m
+    induction m with
+    | zero => intro _; simp
+    | succ m ih =>
+      intro hm
+      rw [List.range_succ, List.countP_append, ih (by omega)]
+      have hm' := h m (by omega)
+      by_cases hmk : m = k
+      · have : p m = true := hm'.mpr hmk
+        subst hmk
+        simp [this]
+      · have : p m = false := by
+          cases hp : p m with
+          | false => rfl
+          | true => exact absurd (hm'.mp hp) hmk
+        have : (if k < m then 1 else 0) = (if k < m + 1 then 1 else 0) := by
+          split_ifs <;> omega
+        simp [*]
+  rw [gen n le_rfl, if_pos hk]
+
+theorem sum_map_indicator (l : List ℕ) (q : ℕ → Bool) :
+    (l.map fun b => if q b = true then 1 else 0).sum = l.countP q := by
+  induction l with
+  | nil => simp
+  | cons b bs ih => simp only [List.map_cons, List.sum_cons, List.countP_cons, ih]; omega
 
 
 end ModelR
